@@ -52,6 +52,11 @@ func (n *node[T]) AppendArr(vs []ref.Val) {
 		xs[i] = n.to(v)
 	}
 	n.col.AppendArr(xs)
+	// the slice belongs to the caller, who goes on using it as scratch space
+	var zero T
+	for i := range xs {
+		xs[i] = zero
+	}
 }
 
 // Setter is implemented by columns whose rows can be overwritten in place through the exported
